@@ -10,7 +10,7 @@ require (
 	github.com/golang/protobuf v1.5.2 // indirect
 	github.com/mr-tron/base58 v1.2.0 // indirect
 	github.com/multiversx/mx-chain-core-go v1.2.24
-	github.com/multiversx/mx-chain-logger-go v1.0.15 // indirect
+	github.com/multiversx/mx-chain-logger-go v1.0.15
 	github.com/pelletier/go-toml v1.9.3 // indirect
 	google.golang.org/protobuf v1.28.0 // indirect
 )
